@@ -4,7 +4,7 @@ from weakref import ReferenceType
 import weakref
 
 from debian._util import resolve_ref, _strI
-from debian._deb822_repro._util import BufferingIterator
+from debian._deb822_repro._util import BufferingIterator, split_lines_keepends
 
 try:
     from typing import Optional, cast, TYPE_CHECKING, Iterable, Union, Dict, Callable
@@ -429,7 +429,7 @@ def _value_line_tokenizer(func):
     def impl(v):
         # type: (str) -> Iterable[Deb822Token]
         first_line = True
-        for line in v.splitlines(keepends=True):
+        for line in split_lines_keepends(v):
             # Only the first line (the rest of the field line) can be blank
             assert first_line or not _RE_WHITESPACE_LINE.match(line)
             if not first_line and line.startswith("#"):
